@@ -69,5 +69,10 @@ func plans() map[string]Plan {
 		Thorough: []Job{{Name: "api-bfs", Engine: "e3"}},
 		QuickCap: 300, ThoroughCap: 3000,
 		Assumptions: append([]string{"the state key of the search is the full observable state (every query of the battery) plus the model's bookkeeping; private fields that never become observable are not distinguished", "R-api (engines/e3) is the reference state machine; Queue/NextPC between Reset and respawn, error texts and RunCycle's integer on an inactive battle are unspecified and not compared"}, baseAssumptions...)}
+	p["C05"] = Plan{Prop: "C05",
+		Quick:    []Job{{Name: "scheduler-controlled", Engine: "e6", Inst: true, Args: []string{"-job", "inst"}}, {Name: "free-running", Engine: "e6", Args: []string{"-job", "free"}}},
+		Thorough: []Job{{Name: "scheduler-controlled", Engine: "e6", Inst: true, Args: []string{"-job", "inst"}}, {Name: "free-running", Engine: "e6", Args: []string{"-job", "free"}}},
+		QuickCap: 300, ThoroughCap: 3000,
+		Assumptions: append([]string{"the instrumentation (ticks, channel/go hooks, ordered map iteration) only adds calls and preserves behaviour; checked on every run by executing the repository's own tests against the instrumented build", "work inside go/types.Eval and the standard library is invisible to the step counter (covered by the free-running pass with its watchdog)", "the free-running pass uses a 2 s grace period for goroutines to finish and a 30-60 s watchdog, both orders of magnitude above the microseconds a call takes"}, baseAssumptions...)}
 	return p
 }
